@@ -119,11 +119,10 @@ def judge(ctx, items, configs, prelude=DEFAULT_PRELUDE, batch=120, tag="w"):
             f.write(text)
         per, unatt = _compile_batch(cfg, path, mine, ranges)
         n = len(mine)
-        if not per[n - 2]:
-            raise AnalysisBroken("positive control (must be rejected) accepted by %s" % cfg.name)
-        if per[n - 1]:
-            raise AnalysisBroken("positive control (must be accepted) rejected by %s: %s"
-                                 % (cfg.name, _short(per[n - 1][0])))
+        if not per[n - 2] or per[n - 1]:
+            # the batch was not judged to its end (e.g. a fatal error stopped the front end) or
+            # attribution failed: nothing from this batch is believed, every item is re-judged alone
+            return cfg, {it.key: None for it in mine[:-2]}, len(unatt), [_short(d) for d in unatt[:3]]
         res = {}
         for i, it in enumerate(mine[:-2]):
             ds = per[i]
@@ -141,11 +140,14 @@ def judge(ctx, items, configs, prelude=DEFAULT_PRELUDE, batch=120, tag="w"):
     # solo re-check of every mismatch
     bykey = {it.key: it for it in items}
     solo_jobs = []
+    nbroken_batches = 0
     for k, per in out.items():
         it = bykey[k]
         for cn, v in per.items():
-            if v.rejected != (it.expect == "reject"):
+            if v is None or v.rejected != (it.expect == "reject"):
                 solo_jobs.append((k, cn))
+    if len(solo_jobs) > max(400, len(items)):
+        raise AnalysisBroken("%d witnesses need a solo re-judgement (batches not judged to their end?)" % len(solo_jobs))
     cfgmap = {c.name: c for c in configs}
 
     def solo(job):
@@ -172,6 +174,10 @@ def judge_solo(ctx, it, cfg, prelude=DEFAULT_PRELUDE, wd=None, tag="w"):
     with open(path, "w") as f:
         f.write(text)
     rc, diags, se = cxx.compile_syntax(cfg, path)
+    if rc != 0 and not any(dd.tu_lines(path) for dd in diags):
+        # rejected, but no error mentions the witness itself: the prelude / library is broken
+        raise AnalysisBroken("solo witness %s rejected by %s with errors outside the witness: %s"
+                             % (it.key, cfg.name, _short(diags[0]) if diags else se[-300:]))
     return Verdict(rc != 0, [_short(d) for d in diags[:4]], solo=True)
 
 
